@@ -13,7 +13,7 @@ from gxstat.algebra import Rat, Translator, Unsupported
 from gxstat.domains import UNIT_TABLE, UT, Lit, UnitMismatch, UnitTyper, close, NONE
 from gxstat.flowutil import guards_of
 from gxstat.loops import loop_stores
-from gxstat.srcmodel import AnalysisError, FuncInfo, calls_in, dotted_name, norm, parent
+from gxstat.srcmodel import AnalysisError, FuncInfo, calls_in, dotted_name, norm, parent, walk_no_nested
 from gxstat.symflow import PathEnumerator, cond_text
 
 ELEC_PLANTS = ['SurfacePlantSubcriticalOrc', 'SurfacePlantSupercriticalOrc', 'SurfacePlantSingleFlash', 'SurfacePlantDoubleFlash']
@@ -553,6 +553,38 @@ def check_shared_storage(ctx) -> None:
         else:
             ctx.ok('F9', key, f.where, f'{len(pairs)} shared series, none stored to in place')
     ctx.floor('F9', n, 6, 'surface plant Calculate functions')
+    # the same through a local: `x = <obj>.PumpingkWh.value; x += ...` adds into the reported energy series itself
+    MUT = {'insert', 'append', 'extend', 'pop', 'remove', 'sort', 'reverse', 'clear', 'fill', 'resize', 'put'}
+    energy = ('kWh', 'kwh', 'Produced', 'Extracted', 'Power', 'power', 'HeatContent', 'heating_demand', 'electricity_used')
+    for f in repo.all_functions():
+        if not isinstance(f.node, ast.FunctionDef) or 'geophires_x/' not in f.module.rel or (f.cls is not None and f.cls.name.startswith('AGS')):
+            continue
+        alias = {}
+        for st in walk_no_nested(f.node):
+            if isinstance(st, ast.Assign) and isinstance(st.value, ast.Attribute) and st.value.attr == 'value' and dotted_name(st.value):
+                src = dotted_name(st.value)
+                if any(w in src.split('.')[-2] for w in energy):
+                    for t in st.targets:
+                        if isinstance(t, ast.Name):
+                            alias[t.id] = (src, st)
+        for nm, (src, st0) in alias.items():
+            rebinds = [x for x in walk_no_nested(f.node) if isinstance(x, ast.Assign) and any(isinstance(t, ast.Name) and t.id == nm for t in x.targets)]
+            bad = None
+            if len(rebinds) == 1:
+                for st in walk_no_nested(f.node):
+                    if isinstance(st, ast.AugAssign):
+                        b = st.target.value if isinstance(st.target, ast.Subscript) else st.target
+                        if isinstance(b, ast.Name) and b.id == nm:
+                            bad = st
+                    elif isinstance(st, ast.Assign) and any(isinstance(t, ast.Subscript) and isinstance(t.value, ast.Name) and t.value.id == nm for t in st.targets):
+                        bad = st
+                    elif isinstance(st, ast.Call) and isinstance(st.func, ast.Attribute) and st.func.attr in MUT and isinstance(st.func.value, ast.Name) \
+                            and st.func.value.id == nm:
+                        bad = st
+            ctx.check(bad is None, 'F9', f'{f.qualname}/{nm}-aliases-{src.split(".")[-2]}/not-modified-in-place', f'{f.module.rel}:{(bad or st0).lineno}',
+                      f'`{norm(bad)[:80] if bad is not None else ""}` modifies in place the local `{nm}`, which line {st0.lineno} bound to {src} itself (no copy): '
+                      f'the reported series {src.split(".")[-2]} is changed by a computation that only meant to read it, and no longer is the integral '
+                      f'of its power series', fact=f'{nm} = {src}; read only')
 
 
 def check_sutra_plant(ctx) -> None:
